@@ -26,6 +26,18 @@ CHECKS = {
          "be(crc16_x25 | crc32c) of the block serialized with a zero-filled CRC field, type 0 has no field, fresh encodings pass the check; CRC definition "
          "= bitwise reflected register with catalogue parameters regenerated from src/crc.rs + crc-catalog (check values re-verified by the kernel); crc "
          "crate tied by the K-crc channel.", "as C01; crate `crc` table implementation tied by differential testing only.", "DESIGN.md section 6 C04"),
+ "C05": ("Coq theorems C05_no_silent_corruption_partial / C05_single_bit / C05_crc_value_change (pipeline: emitted bundle of the C01 domain with "
+         "CRC-16/CRC-32C on all blocks, one block corrupted, decoder, alarm condition 're-encodes with stored CRCs to the received bytes in the same "
+         "block byte ranges' => crc_valid = false) for the three classes: one flipped bit anywhere in the block (no premise on the decoded CRC type: "
+         "both generator polynomials contain x+1, a valid block has even parity under either algorithm), any change of the CRC value, any change "
+         "confined to 2 resp. 4 consecutive content bytes under the premise that the decoded block keeps its CRC type; per-block versions for primary "
+         "and canonical blocks; C05_any_decoder (any bundle value in the decoder's image, decoder-independent); C05_uncorrupted_passes, "
+         "C05_no_crc_passes; algebra C05_crc16/crc32c_detects_window without enumeration. C05_full (window class without the premise) is REFUTED "
+         "(C05_full_refuted): a concrete CRC-16 payload block that a two-byte window turns into a valid CRC-32C block of the same length - a "
+         "property of the BPv7 wire format, reproduced on the implementation (corpus line, counted, not judged). K-corrupt channel: every bit flip, "
+         "every window start with boundary/exhaustive patterns and CRC overwrites per block, model vs implementation, oracle = the alarm condition.",
+         "window class: same decoded CRC type (necessary, see C05_full_refuted); windows straddling content and CRC value are outside the property; "
+         "as C01 for serde.", "DESIGN.md section 6 C05"),
  "C06": ("Coq theorems C06_decode_total (for EVERY byte string the decoder model returns Ok or Err, never Panic — by inversion of the stream parser through all "
          "bp7 visitors), C06_receive_path_total (forwarding update, lifetime check, timestamp display, unix conversion cannot panic on any decodable "
          "bundle in checked or wrapping arithmetic), C06_depth_bounded (>= 128 nested tags are an error: the recursion budget is effective), "
@@ -92,7 +104,6 @@ CHECKS = {
 }
 
 PENDING = {
- "C05": "check not built yet (CRC window algebra is proved in Proofs/CrcAlgebra.v; pipeline theorem and channel pending)",
 
  "C11": "check not built yet", "C12": "check not built yet", "C13": "check not built yet", "C14": "check not built yet",
  "C19": "check not built yet", "C20": "check not built yet",
